@@ -39,7 +39,7 @@ func c16(r *Run) {
 	fill := w.MustFn("(*zcReader).fill")
 	reads := findIns(fill, func(i ssa.Instruction) bool { return isInvokeOf(i, "Reader", "Read") })
 	if len(reads) != 1 {
-		broken("ANCHOR-LOST C16: %d source Read calls in fill", len(reads))
+		r.absentf(" C16: %d source Read calls in fill", len(reads))
 	}
 	rd := reads[0]
 	isAck, isFlush := onBuf("zcReader", "MallocAck"), onBuf("zcReader", "Flush")
@@ -192,7 +192,7 @@ func c16(r *Run) {
 		fl := w.MustFn("(*zcWriter).Flush")
 		writes := findIns(fl, func(i ssa.Instruction) bool { return isInvokeOf(i, "Writer", "Write") })
 		if len(writes) != 1 {
-			broken("ANCHOR-LOST C16: %d sink Write calls in zcWriter.Flush", len(writes))
+			r.absentf(" C16: %d sink Write calls in zcWriter.Flush", len(writes))
 		}
 		wrc := writes[0]
 		commit, skip, rel, bytes := onBuf("zcWriter", "Flush"), onBuf("zcWriter", "Skip"), onBuf("zcWriter", "Release"), onBuf("zcWriter", "Bytes")
